@@ -36,6 +36,12 @@ WORKLOADS = [
               "pp.TimeManager", "EquationSystem value storage and assembly", "SinglePhaseFlow physics, SquareDomainOrthogonalFractures geometry, scipy sparse solve"],
         stub=["fault-injecting overrides of check_convergence and solve_linear_system (pass the real answer through when no fault is due)", "save_data_time_step is a no-op (export studied under C38)"],
     ),
+    Workload(
+        name="driver_mp", run=driver_sim.make_run("C10", families=("energy", "mech", "poro")), runs={"quick": 64, "thorough": 3_000}, chunk=4, run_timeout=600.0,
+        real=["as workload driver, with the physics replaced by MassAndEnergyBalance / MomentumBalance (contact mechanics) / Poromechanics on the same geometry: "
+              "vector-valued, interface and contact-traction variables in the stored state, genuinely non-converging solves (contact) next to the injected ones"],
+        stub=["fault-injecting overrides of check_convergence and solve_linear_system", "save_data_time_step is a no-op"],
+    ),
 ]
 DETERMINISM_RUNS = 48
 
